@@ -31,6 +31,26 @@ static int count_dir()
 	return n;
 }
 
+// descriptors open on a file inside the upload directory (removed-but-open files included)
+static int count_fds()
+{
+	int n=0;
+	DIR *d=opendir("/proc/self/fd");
+	if(!d) return -1;
+	std::string pre=tmpdir+"/";
+	while(struct dirent *e=readdir(d)) {
+		if(e->d_name[0]=='.') continue;
+		char buf[4096];
+		std::string lnk=std::string("/proc/self/fd/")+e->d_name;
+		ssize_t k=readlink(lnk.c_str(),buf,sizeof(buf)-1);
+		if(k<=0) continue;
+		buf[k]=0;
+		if(strncmp(buf,pre.c_str(),pre.size())==0) n++;
+	}
+	closedir(d);
+	return n;
+}
+
 static std::string slurp(cppcms::http::file &f)
 {
 	std::string res;
@@ -49,7 +69,7 @@ struct run_result {
 	int nfiles;
 	std::string cur;     // in-progress file when has_file()
 	std::string trace;
-	int tmp_alive, tmp_after;
+	int tmp_alive, tmp_after, fd_alive, fd_after;
 	bool size_mismatch;
 };
 
@@ -71,7 +91,7 @@ static std::vector<size_t> parse_cuts(std::string const &c,size_t n)
 
 static run_result run(long mem,std::string const &ct,std::string const &body,std::vector<size_t> const &ends,bool want_trace)
 {
-	run_result R; R.nfiles=0; R.tmp_alive=R.tmp_after=0; R.size_mismatch=false;
+	run_result R; R.nfiles=0; R.tmp_alive=R.tmp_after=R.fd_alive=R.fd_after=0; R.size_mismatch=false;
 	{
 		mparser parser(tmpdir,mem<0 ? size_t(-1) : size_t(mem));
 		if(!parser.set_content_type(ct)) { R.status="refused"; return R; }
@@ -111,6 +131,7 @@ static run_result run(long mem,std::string const &ct,std::string const &body,std
 		}
 		else R.cur="none";
 		R.tmp_alive=count_dir();   // before the completed files are taken out and read
+		R.fd_alive=count_fds();
 		mparser::files_type files=parser.get_files();
 		std::ostringstream fs;
 		for(size_t i=0;i<files.size();i++) {
@@ -123,6 +144,7 @@ static run_result run(long mem,std::string const &ct,std::string const &body,std
 		R.files=fs.str();
 	} // parser and files destroyed here: "temporary files disappear with the request"
 	R.tmp_after=count_dir();
+	R.fd_after=count_fds();
 	return R;
 }
 
@@ -148,7 +170,7 @@ int main()
 			run_result R=run(mem,ct,body,parse_cuts(v[3],body.size()),true);
 			if(R.status=="refused") out<<"mp refused";
 			else {
-				out<<"mp "<<R.status<<" "<<R.nfiles<<R.files<<" cur="<<R.cur<<" T "<<R.trace<<" tmp="<<R.tmp_alive<<","<<R.tmp_after;
+				out<<"mp "<<R.status<<" "<<R.nfiles<<R.files<<" cur="<<R.cur<<" T "<<R.trace<<" tmp="<<R.tmp_alive<<","<<R.tmp_after<<" fd="<<R.fd_alive<<","<<R.fd_after;
 				if(R.size_mismatch) out<<" SIZE-MISMATCH";
 			}
 		}
@@ -158,18 +180,18 @@ int main()
 			run_result R0=run(mem,ct,body,parse_cuts("-",body.size()),false);
 			if(R0.status=="refused") out<<"all2 refused";
 			else {
-				std::ostringstream diff; bool any=false; int leaks=R0.tmp_after; bool mism=R0.size_mismatch;
+				std::ostringstream diff; bool any=false; int leaks=R0.tmp_after+R0.fd_after; bool mism=R0.size_mismatch;
 				size_t n=body.size();
 				for(size_t k=1;k<n;k++) {
 					std::vector<size_t> ends; ends.push_back(k); ends.push_back(n);
 					run_result R=run(mem,ct,body,ends,false);
 					// an eof that is not at the end of the data and a parsing error are both "refused" (400 in on_content_progress)
-					if(cls(R.status)!=cls(R0.status) || R.nfiles!=R0.nfiles || R.files!=R0.files || R.cur!=R0.cur || R.tmp_alive!=R0.tmp_alive) {
+					if(cls(R.status)!=cls(R0.status) || R.nfiles!=R0.nfiles || R.files!=R0.files || R.cur!=R0.cur || R.tmp_alive!=R0.tmp_alive || R.fd_alive!=R0.fd_alive) {
 						if(any) diff<<","; any=true; diff<<k;
 					}
-					leaks+=R.tmp_after; if(R.size_mismatch) mism=true;
+					leaks+=R.tmp_after+R.fd_after; if(R.size_mismatch) mism=true;
 				}
-				out<<"all2 "<<(n>0?n-1:0)<<" "<<R0.status<<" "<<R0.nfiles<<R0.files<<" cur="<<R0.cur<<" tmp="<<R0.tmp_alive<<" D "<<(any?diff.str():std::string("-"))<<" leaks="<<leaks;
+				out<<"all2 "<<(n>0?n-1:0)<<" "<<R0.status<<" "<<R0.nfiles<<R0.files<<" cur="<<R0.cur<<" tmp="<<R0.tmp_alive<<" fd="<<R0.fd_alive<<" D "<<(any?diff.str():std::string("-"))<<" leaks="<<leaks;
 				if(mism) out<<" SIZE-MISMATCH";
 			}
 		}
